@@ -1030,7 +1030,13 @@ void GPIO_ICACHE_FLASH supla_esp_gpio_rs_add_task(int idx, sint8 position,
   if (current_position == position || position == -1) {
     if (!supla_esp_gpio_rs_is_tilt_supported(&supla_rs_cfg[idx]) ||
         current_tilt == tilt || tilt == -1) {
-      return;
+      // Already there: nothing to do, unless the shutter is on its way to
+      // another target - then the new request has to replace that one.
+      if ((position == -1 && tilt == -1) ||
+          (supla_rs_cfg[idx].task.state == RS_TASK_INACTIVE &&
+           supla_esp_gpio_rs_get_value(&supla_rs_cfg[idx]) == RS_RELAY_OFF)) {
+        return;
+      }
     }
   }
 
